@@ -40,6 +40,8 @@ def gen_scaffolds(rng, bpt, fasta_backed=True, n=None, hap_prefix=None, edge_gap
         target = max(1, int(texels * bpt + rng.randint(-int(bpt) // 2, int(bpt) // 2)))
         if rng.random() < 0.1:
             target = max(1, int(bpt * rng.random()))  # sub-texel scaffold
+        elif rng.random() < 0.2:
+            target = max(60, 60 * round(target / 60))  # a whole number of FASTA lines
         rows = []
         pos = 0
         ncontig = 0
@@ -204,7 +206,7 @@ def gen_map(rng, scaffolds, bpt, edits=None, tagging=True, rich_tags=False):
     groups = [{"pieces": ps} for ps in pieces_by_sc if ps]
     if not groups:
         return None
-    if rng.random() < 0.05:
+    if rng.random() < 0.1:
         # the map was drawn from a longer, earlier version of one scaffold: a few dozen
         # pieces lie past its present end (each is reported: "No overlaps found for ...")
         sc = rng.choice(scaffolds)
